@@ -60,8 +60,12 @@ def static_report(ctx, out):
     for l in loaderr:
         out["broken"].append("static lock table: " + l)
     allow = len(re.findall(r"(?m)^ALLOWED ", text))
+    # allow-list entries marked FINDING are genuine unprotected accesses in kevo (reported, excluded
+    # from the table so that the lemma about the rest still compiles): named in the evidence
+    finding_locs = re.findall(r"(?m)^ALLOWED (\S+): FINDING", text)
     out["coverage"]["lock_table"] = dict(summ, flagged_locations=len(flagged), reacquired=len(reacq),
-                                         allow_list_entries=allow, report="build/locks_report.txt")
+                                         allow_list_entries=allow, finding_locations=finding_locs,
+                                         report="build/locks_report.txt")
 
 
 def parse(path):
